@@ -185,8 +185,9 @@ int c04_run(const char *tier) {
 	e2_spec_t s = { .harness = "c04.hist", .param = param, .nparam = 1, .nevents = EV_N, .max_depth = d ? atoi(d) : (thorough ? 6 : 5),
 	                .label = "c04.hist", .evname = evname };
 	e2_explore(&s);
-	for (int v = 0; v < 2; v++) { uint8_t sp[1] = {(uint8_t) v}; char label[80]; snprintf(label, sizeof label, "c04.sched %s", v ? "nested stall, inner released first" : "single stall");
-		e1_spec_t es = { .harness = "c04.sched", .param = sp, .nparam = 1, .bound = thorough ? 3 : 2, .label = strdup(label) };
+	for (int v4 = 0; v4 < 4; v4++) { int v = v4 % 2, up = v4 >= 2;      /* second round: a scheduling point after every unlock as well, one preemption less */
+		uint8_t sp[1] = {(uint8_t) v}; char label[120]; snprintf(label, sizeof label, "c04.sched %s%s", v ? "nested stall, inner released first" : "single stall", up ? " (points after unlocks)" : "");
+		e1_spec_t es = { .harness = "c04.sched", .param = sp, .nparam = 1, .bound = (thorough ? 3 : 2) - up, .label = strdup(label), .unlock_points = up };
 		e1_explore(&es); long ex = 0; for (int k = 0; k < 8; k++) ex += es.schedules_by_cost[k]; s.execs += ex; s.states += es.distinct_outcomes; s.transitions += es.choice_points; if (!es.exhaustive) s.exhaustive = 0;
 		rep_note("%s: bound=%d completed=%d schedules by cost=[%ld,%ld,%ld,%ld] distinct outcomes=%ld", label, es.bound, es.completed_bound, es.schedules_by_cost[0], es.schedules_by_cost[1], es.schedules_by_cost[2], es.schedules_by_cost[3], es.distinct_outcomes); }
 	rep_count("states", s.states); rep_count("transitions", s.transitions); rep_count("executions", s.execs);
